@@ -27,7 +27,7 @@ type Case struct {
 func TestMain(m *testing.M) {
 	h.Setup("C08",
 		"F-full ASTs with extra weight on balancing groups, captures inside lookbehind and loops, and corpus patterns x options x byte strings mixing 1-4 byte runes, literal U+FFFD and invalid bytes, plus rune slices containing surrogates / out-of-range runes; one evaluation = one (pattern,input): every match of the string iteration and of the rune iteration is checked with the structural predicate (spans inside the input, group 0 = match, embedded capture = last capture, String/Runes = addressed slice, ByteRange = byte model of the original string) and the three byte mappers (ByteRange, FindAllStringIndex, compat index methods) must agree; non-trivial = a match with >=1 capture of a group other than 0 on an input with a multi-byte or invalid sequence before the end of the match; distinct = hash of (pattern, options, input)",
-		map[string]float64{"balancing/patterns": 0.05, "invalid-bytes": 0.20, "four-byte": 0.10, "match": 0.3},
+		map[string]float64{"balancing/patterns": 0.05, "invalid-bytes": 0.20, "four-byte": 0.10, "match": 0.2},
 		"the byte model decodes with utf8.DecodeRuneInString: every invalid byte is one rune of one byte",
 		"for rune-slice inputs ByteRange is only compared with string(runes) when every rune is a valid scalar value (behaviour for invalid runes is unspecified); it must still not panic")
 	h.Ceiling("compile-error", 0.25)
